@@ -652,4 +652,139 @@ Proof.
 Qed.
 
 End Main.
+
+(* ---------------------------------------------------------------- corollaries *)
+Section Corollaries.
+Variable g : arena.
+Variable w : weights A.
+Variable mode : bool.
+Variable root : nat.
+Variable seed : V.
+Hypothesis Hwf : wf g.
+Hypothesis Hok : forall n, node_ok (getn g n).
+Hypothesis Hreq : req (getn g root) = true.
+
+Notation hasfn := (fun n => has_fn (getn g n)).
+
+(* the closure log: the has_fn nodes of ordered_nodes, each once, parents before children *)
+Lemma log_facts ord : is_postorder g root ord ->
+  let log := filter hasfn (rev ord) in
+  NoDup log /\
+  (forall n, In n log <-> (reachable g root n /\ has_fn (getn g n) = true)) /\
+  (forall n c, In n log -> In c log -> In c (children (getn g n)) -> before n c log).
+Proof.
+  intros Hpo log. pose proof (postorder_kids g root ord Hpo) as HLkids.
+  destruct Hpo as [Hnd [_ [Hmem _]]].
+  split; [|split].
+  - unfold log. apply NoDup_filter. apply NoDup_rev'. exact Hnd.
+  - intros n. unfold log. rewrite filter_In, <- in_rev, Hmem. tauto.
+  - intros n c Hn Hc Hch. unfold log in *. apply filter_In in Hn. apply filter_In in Hc.
+    destruct Hn as [Hn Hfn]. destruct Hc as [_ Hfc].
+    apply in_split in Hn. destruct Hn as [P [S HL]].
+    pose proof (HLkids _ _ _ HL c Hch) as HcS. apply in_split in HcS. destruct HcS as [S1 [S2 ->]].
+    rewrite HL. exists (filter hasfn P), (filter hasfn S1), (filter hasfn S2).
+    rewrite filter_app. cbn [filter]. rewrite Hfn. rewrite filter_app. cbn [filter]. rewrite Hfc. reflexivity.
+Qed.
+
+(* any two post-orders of the same graph give the same buffers and the same set of closure calls *)
+Theorem order_independent_gen ord1 ord2 z1 z2 (b : bufs) :
+  is_postorder g root ord1 -> is_postorder g root ord2 ->
+  zero_char g root b z1 -> zero_char g root b z2 ->
+  exists b1 b2 log1 log2,
+    run_sweep A g w mode root seed ord1 z1 b = Some (b1, log1) /\
+    run_sweep A g w mode root seed ord2 z2 b = Some (b2, log2) /\
+    (forall v, b1 v = b2 v) /\ Permutation log1 log2.
+Proof.
+  intros Hp1 Hp2 Hz1 Hz2.
+  destruct (run_sweep_expected g w mode root seed Hwf Hok Hreq ord1 z1 b Hp1 Hz1) as [b1 [H1 E1]].
+  destruct (run_sweep_expected g w mode root seed Hwf Hok Hreq ord2 z2 b Hp2 Hz2) as [b2 [H2 E2]].
+  exists b1, b2, (filter hasfn (rev ord1)), (filter hasfn (rev ord2)).
+  split; [exact H1|]. split; [exact H2|]. split.
+  - intros v. rewrite E1, E2. reflexivity.
+  - apply Permutation_filter'. destruct Hp1 as [Hn1 [_ [Hm1 _]]]. destruct Hp2 as [Hn2 [_ [Hm2 _]]].
+    apply NoDup_Permutation; try (apply NoDup_rev'; assumption).
+    intros x. rewrite <- !in_rev, Hm1, Hm2. tauto.
+Qed.
+
+(* number of closure calls = number of has_fn nodes reachable from the root *)
+Lemma calls_count ord : root < length g -> is_postorder g root ord ->
+  length (filter hasfn (rev ord)) =
+  length (filter (fun n => reachb g root n && has_fn (getn g n)) (seq 0 (length g))).
+Proof.
+  intros Hroot [Hnd [_ [Hmem _]]].
+  assert (HP : Permutation (rev ord) (filter (reachb g root) (seq 0 (length g)))).
+  { apply NoDup_Permutation.
+    - apply NoDup_rev'. exact Hnd.
+    - apply NoDup_filter. apply seq_NoDup.
+    - intros x. rewrite <- in_rev, Hmem, filter_In, in_seq, (reachb_iff g root x Hwf).
+      split; [|tauto]. intros H. split; [|exact H]. apply (reachable_le g root x Hwf) in H. lia. }
+  apply (Permutation_filter' hasfn) in HP. apply Permutation_length in HP. rewrite HP.
+  f_equal. clear. induction (seq 0 (length g)) as [|x l IH]; [reflexivity|].
+  cbn [filter]. destruct (reachb g root x); cbn [filter andb]; [destruct (has_fn (getn g x))|]; rewrite IH; reflexivity.
+Qed.
+
+(* composition with the ordering loop, given what Proofs/DfsProofs.v proves about it *)
+Lemma mem_present_of (b : bufs) c : c < length g -> (mem c (present_of A g b) = false <-> b c = None).
+Proof.
+  intros Hc. unfold present_of. split.
+  - intros H. destruct (b c) eqn:E; [|reflexivity].
+    assert (mem c (filter (fun v => is_some (b v)) (seq 0 (length g))) = true); [|congruence].
+    apply mem_In. apply filter_In. split; [apply in_seq; lia|rewrite E; reflexivity].
+  - intros H. destruct (mem c (filter (fun v => is_some (b v)) (seq 0 (length g)))) eqn:E; [|reflexivity].
+    apply mem_In in E. apply filter_In in E. destruct E as [_ E]. rewrite H in E. discriminate.
+Qed.
+
+Theorem backward_expected (b : bufs) : dfs_spec -> root < length g ->
+  exists b' ord, backward A g w mode root seed b = Some (b', filter hasfn (rev ord)) /\
+    is_postorder g root ord /\
+    forall v, b' v = expected A g w mode root seed b v.
+Proof.
+  intros Hdfs Hroot.
+  destruct (Hdfs g root (present_of A g b) Hwf Hroot) as [ord [z [p [Hd [Hpo Hz]]]]].
+  assert (Hzc : zero_char g root b z).
+  { intros c. rewrite Hz. split; intros [H1 [H2 [H3 H4]]]; (split; [exact H1|]; split; [exact H2|]; split; [exact H3|]).
+    - destruct H4 as [H4|H4]; [left|right; exact H4]. apply mem_present_of; [|exact H4].
+      apply (reachable_le g root c Hwf) in H2. lia.
+    - destruct H4 as [H4|H4]; [left|right; exact H4]. apply mem_present_of; [|exact H4].
+      apply (reachable_le g root c Hwf) in H2. lia. }
+  destruct (run_sweep_expected g w mode root seed Hwf Hok Hreq ord z b Hpo Hzc) as [b' [Hrun Hexp]].
+  exists b', ord. split; [|split; [exact Hpo|exact Hexp]].
+  unfold backward. rewrite Hreq. cbn [negb]. rewrite Hd. exact Hrun.
+Qed.
+
+End Corollaries.
+
+(* ---------------------------------------------------------------- the path enumeration is right *)
+Section PathsSpec.
+Variable g : arena.
+Hypothesis Hwf : wf g.
+
+Lemma paths_sound : forall fuel n v p, In p (paths g fuel n v) -> is_path g n v p.
+Proof.
+  induction fuel as [|f IH]; intros n v p H; cbn [paths] in H; apply in_app_or in H; destruct H as [H|H].
+  - destruct (n =? v) eqn:E; [|destruct H]. apply Nat.eqb_eq in E. destruct H as [<-|[]]. subst. constructor.
+  - destruct H.
+  - destruct (n =? v) eqn:E; [|destruct H]. apply Nat.eqb_eq in E. destruct H as [<-|[]]. subst. constructor.
+  - destruct (has_fn (getn g n)) eqn:Hfn; [|destruct H].
+    apply in_flat_map in H. destruct H as [[k c] [Hkc H]]. cbn [fst snd] in H.
+    destruct (req (getn g c)) eqn:Hr; [|destruct H].
+    apply in_map_iff in H. destruct H as [q [<- Hq]].
+    apply in_indexed in Hkc. econstructor; eauto.
+Qed.
+
+Lemma paths_complete : forall n v p, is_path g n v p -> forall fuel, n < fuel -> In p (paths g fuel n v).
+Proof.
+  intros n v p H. induction H as [n|n k c v p Hfn Hk Hr Hp IH]; intros fuel Hf.
+  - destruct fuel; cbn [paths]; apply in_or_app; left; rewrite Nat.eqb_refl; left; reflexivity.
+  - destruct fuel as [|f]; [lia|]. cbn [paths]. apply in_or_app. right. rewrite Hfn.
+    apply in_flat_map. exists (k, c). split; [apply in_indexed; exact Hk|]. cbn [fst snd]. rewrite Hr.
+    apply in_map. apply IH. apply nth_error_In in Hk. apply (children_lt g n c Hwf) in Hk. lia.
+Qed.
+
+Lemma paths_spec r v p : In p (all_paths g r v) <-> is_path g r v p.
+Proof.
+  unfold all_paths. split; [apply paths_sound|]. intros H. apply paths_complete; [exact H|lia].
+Qed.
+
+End PathsSpec.
 End Generic.
